@@ -19,22 +19,26 @@ RULE = ("(seq12/seq20, EXHAUSTIVE) for each item-grader class (String with a val
         "off}: every call sequence of length 3 (quick) / 4 (thorough) over the 12 events expect in {absent, valid A, "
         "valid B, invalid} x input in {right for A, wrong, malformed-or-raising}, and every sequence of length 2 / 3 over "
         "the 20 events that add 'right for B' and non-text input (sequences already in the first set skipped); every "
-        "call of every sequence is judged, so all shorter sequences are covered as prefixes. (random) Hypothesis lists "
-        "of <= 40 operations over a pool of graders built from templates that share subgraders, one MathArray and whole "
-        "author config dictionaries: call a pool grader with any event, construct another grader from a shared "
-        "dictionary, MatrixGrader(negative_powers=False) calls that raise mid-evaluation, ListGrader / SingleListGrader / "
-        "IntervalGrader over shared subgraders, evaluator calls with caller-owned scopes (incl. an author function that "
-        "works in place on its argument), balanced register_defaults/clear_registered_defaults around a construction. "
-        "ORACLE (a) fresh-instance differential: the outcome of each call (result with hex addresses masked, or "
-        "exception type + message) equals the memoised outcome of a grader freshly built from a pristine rebuild of the "
-        "same spec, called with the effective expect of the reference state machine (configured answers: expect ignored; "
-        "else the current expect, else the last expect that was accepted; after a schema-valid expect that fails only "
-        "when grading, an absent expect may resolve to either candidate) with the same input and sampling seed; the "
-        "debug line 'Expect value inferred to be' must be present exactly when an expect was passed in this call to a "
-        "grader without configured answers. (b) structural snapshots (container identity and shape, leaf repr/identity, "
-        "array bytes) of every author config object, of the evaluator scopes, of every other pool grader's config, and of "
-        "the process-wide settings (DEFAULT_*/function tables, every ObjectWithSchema subclass' default_values / "
-        "default_variables / default_functions / default_suffixes / default_comparer / log_created / inferring_answers, "
+        "call of every sequence is judged, so all shorter sequences are covered as prefixes. (nested_debug, EXHAUSTIVE) "
+        "SingleListGrader / IntervalGrader (debug on, off) over a Formula / Numerical / MatrixGrader subgrader with "
+        "debug=True: every sequence of length 3 / 4 over {subgrader called directly with a valid, an absent, an invalid "
+        "expect; parent called with a right, wrong, malformed input}. (random) Hypothesis lists of 10-32 operations "
+        "(bursts of calls expand them to ~30 calls) over a pool of graders built from 25 templates that share subgraders, "
+        "one MathArray and whole author config dictionaries: call a pool grader with any event, construct another "
+        "grader from a shared dictionary, MatrixGrader(negative_powers=False) calls that raise mid-evaluation followed "
+        "by negative powers where they are allowed, ListGrader / SingleListGrader / IntervalGrader over shared "
+        "subgraders, evaluator calls with caller-owned scopes (incl. an author function that works in place on its "
+        "argument), balanced register_defaults/clear_registered_defaults around a construction. ORACLE (a) "
+        "fresh-instance differential: the outcome of each call (result with hex addresses masked, or exception type + "
+        "message) equals the memoised outcome of a grader freshly built from a pristine rebuild of the same spec, called "
+        "with the effective expect of the reference state machine (configured answers: expect ignored; else the current "
+        "expect, else the last expect that was accepted; after a schema-valid expect that fails only when grading, an "
+        "absent expect may resolve to either candidate) with the same input and sampling seed; the debug line 'Expect "
+        "value inferred to be' must be present exactly when an expect was passed in this call to a grader without "
+        "configured answers. (b) snapshots (container identity and shape, leaf repr/identity, array bytes) of every "
+        "author config object, of the evaluator scopes, of every other pool grader's config, and of the process-wide "
+        "settings (DEFAULT_*/function tables, every ObjectWithSchema subclass' default_values / default_variables / "
+        "default_functions / default_suffixes / default_comparer / log_created / inferring_answers, "
         "MathArray._negative_powers, np.geterr(), np.geterrcall()) are compared after construction and after every "
         "call. Non-trivial = a raising call is followed by a judged call, or two different expects reach one grader, or "
         "two graders sharing an object are both used. Distinct by spec hash.")
@@ -45,13 +49,15 @@ ASSUMPTIONS = ["student input is text (non-text inputs are used only as the 'non
                "the reference outcome of (configuration, effective expect, input, seed) is memoised per worker process; "
                "a grader's own config (where inferred answers are stored by design) is not snapshotted, only everybody "
                "else's", "registered class defaults are exercised only around the construction of a grader that is "
-               "discarded before the defaults are cleared"]
-REQUIRED = {'seq/raise-then-judged': 20000, 'seq/two-expects': 10000, 'seq/ambiguous-absent-expect': 1500,
+               "discarded before the defaults are cleared; the process-wide tables hold functions and immutable numbers, "
+               "so they are fingerprinted by key order and value identity (array values also by bytes)"]
+REQUIRED = {'seq/String': 7000, 'seq/Formula': 7000, 'seq/Numerical': 7000, 'seq/Matrix': 7000, 'seq/MatrixNP': 7000,
+            'seq/SingleList': 7000, 'seq/Interval': 7000, 'seq/raise-then-judged': 20000, 'seq/two-expects': 10000, 'seq/ambiguous-absent-expect': 1500,
             'seq/configured': 20000, 'seq/debug': 20000, 'seq/non-text-input': 2000, 'seq/failed-inference-then-call': 2000,
-            'rand/raise-then-judged': 300, 'rand/shared-dict-reuse': 150, 'rand/negpow-disabled-raise-then-negpow': 60,
-            'rand/listgrader-call': 300, 'rand/evaluator': 300, 'rand/evaluator-inplace-function': 40,
-            'rand/registered-defaults': 100, 'rand/shared-subgrader-direct-and-nested': 150, 'rand/two-expects': 200,
-            'nested/direct-then-parent': 1000}
+            'rand/raise-then-judged': 300, 'rand/shared-dict-reuse': 150, 'rand/negpow-disabled-raise-then-negpow': 150,
+            'rand/listgrader-call': 100, 'rand/evaluator': 300, 'rand/evaluator-inplace-function': 80,
+            'rand/registered-defaults': 200, 'rand/shared-subgrader-direct-and-nested': 60, 'rand/two-expects': 150,
+            'rand/ambiguous': 30, 'nested/direct-then-parent': 1000}
 
 # ----------------------------------------------------------------------------------------------------
 # snapshots
@@ -571,7 +577,10 @@ def construct(tname, W):
     if 'shared' in T:
         return Entry(tname, W[T['shared']], T['conf'])
     cls, cfg, form, cfgname = T['build'](W)
+    before = snap(cfg)
     g = cls(cfg) if form == 'dict' else cls(**cfg)
+    check_author(cfgname or 'config', cls.__name__, cfg, before,
+                 'constructing %s as %s(%sconfig)' % (tname, cls.__name__, '' if form == 'dict' else '**'))
     return Entry(tname, g, T['conf'], cfg, cfgname)
 
 
@@ -650,11 +659,9 @@ def judge_random(spec, rec):
     log = []
 
     def new(tname, when):
-        T = TEMPLATES[tname]
-        cls = T['build'](H.W)[0]
         ent = construct(tname, H.W)
         H.add(ent)
-        H.check(when, cls.__name__, own=len(H.pool) - 1)
+        H.check(when, type(ent.g).__name__, own=len(H.pool) - 1)
         if ent.cfgname:
             built_from[ent.cfgname] = built_from.get(ent.cfgname, 0) + 1
             if built_from[ent.cfgname] >= 2:
